@@ -167,7 +167,7 @@ def _frame_runner(kind):
     return run
 
 
-POOL = ["two_zones", "only_hot", "zero_contribution", "nested_labels", "generic_tree"]
+POOL = ["two_zones", "only_hot", "zero_contribution", "nested_labels", "generic_tree", "with_list_valued_option"]
 HOW = ["dictionary", "validated_model", "same_model_reused", "dictionary_of_validated_records"]
 
 
@@ -179,6 +179,9 @@ def _mk(name):
             s["zone"] = z
         p["zone_tree"] = copy.deepcopy(C14.TREES["generic_three_levels"])
         return p
+    if name == "with_list_valued_option":
+        # an option whose library default is a LIST held on the Configuration class (the only option of that kind): one analysis must not edit the default
+        return C14._problem("two_zones", "needed", {"REFRIGERANTS": "propane, R134a"})
     return C14._problem(name, "needed", {})
 
 
@@ -208,6 +211,7 @@ def ob_sequences(h):
     target = h.choice("then", POOL)
     reuse = how in ("same_model_reused", "dictionary_of_validated_records")
     with native():
+        _start_from_the_library_defaults()
         alone = main.pinch_analysis_service(_mk(target), project_name="Site").model_dump_json()
         earlier = []
         snapshot = _module_state()
@@ -230,6 +234,27 @@ def ob_sequences(h):
         h.check("module_state_unchanged", _module_state() == snapshot)
 
 
+_PRISTINE = {}
+
+
+def _start_from_the_library_defaults():
+    """every path starts from the class-level containers as they were when the library was imported (a change under test that edits one of them
+    would otherwise be visible on the first path only, and never in the replay, which runs in the same process)"""
+    for name, mod in list(sys.modules.items()):
+        if not name.startswith("OpenPinch") or mod is None or "streamlit" in name:
+            continue
+        for v in list(vars(mod).values()):
+            if isinstance(v, type) and getattr(v, "__module__", "").startswith("OpenPinch"):
+                for ck, cv in vars(v).items():
+                    if not ck.startswith("__") and isinstance(cv, (dict, list, set)):
+                        key = (v.__module__, v.__name__, ck)
+                        if key not in _PRISTINE:
+                            _PRISTINE[key] = copy.deepcopy(cv)
+                        elif cv != _PRISTINE[key]:
+                            cv.clear()
+                            (cv.extend if isinstance(cv, list) else cv.update)(copy.deepcopy(_PRISTINE[key]))
+
+
 def _module_state():
     out = {}
     for name, mod in list(sys.modules.items()):
@@ -240,9 +265,17 @@ def _module_state():
                 continue
             if isinstance(v, (dict, list, set)):
                 out[f"{name}.{k}"] = repr(sorted(map(repr, v)) if not isinstance(v, dict) else sorted(map(repr, v.items())))[:2000]
+            elif isinstance(v, type) and getattr(v, "__module__", "").startswith("OpenPinch"):
+                # containers bound in a class body are shared by every instance and every analysis: module state reached through the class
+                for ck, cv in vars(v).items():
+                    if not ck.startswith("__") and isinstance(cv, (dict, list, set)):
+                        out[f"{v.__module__}.{v.__name__}.{ck}"] = repr(sorted(map(repr, cv)) if not isinstance(cv, dict) else sorted(map(repr, cv.items())))[:2000]
             elif callable(v) and getattr(v, "__defaults__", None):
                 out[f"{name}.{k}.__defaults__"] = repr(v.__defaults__)[:2000]
     return out
+
+
+_start_from_the_library_defaults()          # capture the defaults when the contracts are loaded, before any analysis has run in this process
 
 
 def obligations():
